@@ -1,5 +1,6 @@
 (* Input kinds: how two cursors become a span (Input::span), per kind. *)
 From Chum Require Export Syntax.
+From Coq Require Export ZArith.
 
 (* &str (after byte->char index canonicalisation), &[T], &[T; N], Stream: the cursor offsets themselves *)
 Definition spn_plain (p1 p2 : nat) : span := (p1, p2).
@@ -82,3 +83,48 @@ Definition stream_next (B : nat) (s : stream) (c : nat) : option tok * stream :=
                           (s_pulled s + length (firstn B (s_rest s)))
             else s in
   (nth_error (s_cache s') c, s').
+
+(* ---------- IoInput: a seekable buffered reader and the cursor it was last left at (input.rs:1076-1143) ---------- *)
+(* ValueInput::next: `if *cursor != last_cursor { reader.seek_relative(cursor - last_cursor); last_cursor = cursor }`, then
+   read one byte: on success both last_cursor and the cursor advance, at the end of the file nothing moves.
+   The reader's position is an offset into the file (signed while seeking). *)
+Record ioin := mkIo { io_rpos : Z; io_last : nat }.
+Definition io_init : ioin := mkIo 0 0.
+Definition io_next (bytes : list tok) (s : ioin) (c : nat) : option (tok * nat) * ioin :=
+  let s1 := if Nat.eqb c (io_last s) then s
+            else mkIo (io_rpos s + (Z.of_nat c - Z.of_nat (io_last s))) c in
+  match (if Z.ltb (io_rpos s1) 0 then None else nth_error bytes (Z.to_nat (io_rpos s1))) with
+  | Some b => (Some (b, S c), mkIo (io_rpos s1 + 1) (S (io_last s1)))
+  | None => (None, s1)
+  end.
+(* a whole history of requests (the parser moves its cursor back and forth as it likes) *)
+Fixpoint io_run (bytes : list tok) (s : ioin) (cs : list nat) : list (option (tok * nat)) :=
+  match cs with
+  | [] => []
+  | c :: r => fst (io_next bytes s c) :: io_run bytes (snd (io_next bytes s c)) r
+  end.
+
+(* ---------- Input::map / IterInput: the cursor caches the end offset of the last token (input.rs:593-655) ---------- *)
+(* Cursor = (inner cursor, Option<end offset of the token consumed last on the way here>); next_maybe stores the end of the
+   token it hands out; span(start..end) takes the start of the token AT the start cursor and the cached end OF the end cursor.
+   (Cursors are values: a rewind puts an earlier cursor back, cache included.) *)
+Record mcur := mkMc { mc_idx : nat; mc_end : option nat }.
+Definition mc_init : mcur := mkMc 0 None.
+Definition mapped_next (spans : list span) (c : mcur) : option mcur :=
+  match nth_error spans (mc_idx c) with
+  | Some (_, e) => Some (mkMc (S (mc_idx c)) (Some e))
+  | None => None
+  end.
+Definition mapped_span (spans : list span) (eoi : nat) (c1 c2 : mcur) : span :=
+  match nth_error spans (mc_idx c1) with
+  | Some (s1, _) =>
+      (s1, if Nat.eqb (mc_idx c1) (mc_idx c2) then s1
+           else match mc_end c2 with Some e => e | None => eoi end)
+  | None => (eoi, eoi)
+  end.
+(* the cursor after k calls of next from the start *)
+Fixpoint mc_walk (spans : list span) (k : nat) (c : mcur) : option mcur :=
+  match k with
+  | 0 => Some c
+  | S k' => match mapped_next spans c with Some c' => mc_walk spans k' c' | None => None end
+  end.
